@@ -35,8 +35,8 @@ MANIFEST = {
 }
 
 STEPS = [2, 5, 10, 30, 60, 100, 300, 600, 3600]
-T_IDS = (10001, 10002, 10003)
-S_IDS = (20001, 20002)
+T_IDS = (10001, 10002, 10003, 10004)  # T1,T2 in engine 1; T3 (removable) and T4 in engine 2
+S_IDS = (20001, 20002, 20003)  # S1 in engine 1; S2 (removable) and S3 in engine 2
 NEW_T, NEW_S = 10009, 20009
 
 
@@ -93,8 +93,6 @@ def gen_case(rng):
         elif kind == "agent_removal" and not used_removal:
             used_removal = True
             which = rng.choice(["target", "sensor"])
-            # T3 lives in engine 2 together with sensor S2; engine 1 keeps T1, T2, S1. A sensor is
-            # only removed from engine 2 when a replacement exists (engines need >= 1 sensor to task).
             events.append({"kind": "agent_removal", "off": off, "agent_type": which, "agent": T_IDS[2] if which == "target" else S_IDS[1], "engine": 2})
         elif kind == "task_priority":
             dur_steps = rng.randrange(1, n + 1)
@@ -105,18 +103,7 @@ def gen_case(rng):
             j = rng.randrange(math.ceil(off / step), n + 2)
             end = max(j * step, off)  # ends on a step boundary: both readings of "overlap" coincide
             events.append({"kind": "sensor_time_bias", "off": off, "end": end, "sensor": rng.choice(S_IDS), "bias": rng.choice([0.5, 1.0, -0.5])})
-    # removal of sensor S2 requires engine 2 to keep a sensor: drop it unless a replacement was added earlier in engine 2
-    for ev in list(events):
-        if ev["kind"] == "agent_removal" and ev["agent_type"] == "sensor":
-            ok = any(e["kind"] == "sensor_addition" and e["engine"] == 2 and e["off"] + step <= ev["off"] for e in events)
-            if not ok:
-                events.remove(ev)
-        if ev["kind"] == "agent_removal" and ev["agent_type"] == "target":
-            # engine 2 must keep a target: require T_new added to engine 2 strictly earlier
-            ok = any(e["kind"] == "target_addition" and e["engine"] == 2 and e["off"] + step <= ev["off"] for e in events)
-            if not ok:
-                events.remove(ev)
-                # priority events addressed to the removed target are fine either way
+    # engine 2 keeps T4 and S3 whatever is removed, so a removal never empties an engine
     if not events:
         events.append({"kind": "impulse", "off": base_off, "target": T_IDS[0], "frame": "eci", "planned": True, "dv": [0.01, -0.005, 0.004]})
     # a task priority for a target that gets removed would index a missing row: keep priorities on T3 only if T3 is never removed
@@ -137,7 +124,7 @@ def _initial_states(case=None):
     from .. import scenario_kit as sk
 
     out = {}
-    for tid, (a, inc, raan, u) in zip(T_IDS + (NEW_T,), [(7000.0, 51.6, 30.0, 40.0), (7400.0, 28.0, 100.0, 200.0), (26600.0, 55.0, 10.0, 300.0), (7150.0, 98.0, 250.0, 120.0)]):
+    for tid, (a, inc, raan, u) in zip(T_IDS + (NEW_T,), [(7000.0, 51.6, 30.0, 40.0), (7400.0, 28.0, 100.0, 200.0), (26600.0, 55.0, 10.0, 300.0), (7900.0, 74.0, 190.0, 20.0), (7150.0, 98.0, 250.0, 120.0)]):
         out[tid] = np.concatenate(sk.circ_state(a, inc, raan, u))
     if case is not None and case.get("visible"):
         # T1 starts at the zenith of site 1 (ECEF->ECI rotation taken from the repository; its
@@ -171,11 +158,12 @@ def build_cfg(case):
     blind = {"elevation_range": [89.0, 89.99999]}
     s1 = sk.ground_sensor_cfg(S_IDS[0], SITE1[0], SITE1[1], **({} if case.get("visible") else blind))
     s2 = sk.ground_sensor_cfg(S_IDS[1], -20.0, 140.0, **blind)
+    s3 = sk.ground_sensor_cfg(S_IDS[2], 10.0, -60.0, **blind)
     snew = sk.ground_sensor_cfg(NEW_S, 50.0, 10.0, **blind)
     rs, vs = sk.circ_state(7300.0, 63.0, 200.0, 10.0)
     snew_space = sk.space_sensor_cfg(NEW_S, rs, vs, kind="optical")
     eid = {1: case.get("engine_ids", [1, 2])[0], 2: case.get("engine_ids", [1, 2])[1]}
-    engines = [sk.engine_cfg(eid[1], [tcfg[T_IDS[0]], tcfg[T_IDS[1]]], [s1]), sk.engine_cfg(eid[2], [tcfg[T_IDS[2]]], [s2])]
+    engines = [sk.engine_cfg(eid[1], [tcfg[T_IDS[0]], tcfg[T_IDS[1]]], [s1]), sk.engine_cfg(eid[2], [tcfg[T_IDS[2]], tcfg[T_IDS[3]]], [s2, s3])]
     evs = []
     for e in case["events"]:
         t = start + timedelta(seconds=e["off"])
@@ -467,8 +455,8 @@ def eval_case(ctx, case):
     for k in range(1, n + 1):
         exp_t = set(T_IDS)
         exp_s = set(S_IDS)
-        eng_t = {1: {T_IDS[0], T_IDS[1]}, 2: {T_IDS[2]}}
-        eng_s = {1: {S_IDS[0]}, 2: {S_IDS[1]}}
+        eng_t = {1: {T_IDS[0], T_IDS[1]}, 2: {T_IDS[2], T_IDS[3]}}
+        eng_s = {1: {S_IDS[0]}, 2: {S_IDS[1], S_IDS[2]}}
         for e in sorted(events, key=lambda z: z["off"]):
             if kstar(e["off"]) > k:
                 continue
